@@ -226,3 +226,44 @@ Example success_witness :
   run_effs (inject no_faults (fmt_w (FmtOk [x61; x62]))) (fs_of [x63]) FILE = Some [x61; x62] /\
   run_effs (inject no_faults (fmt_w (FmtOk [x61; x62]))) (fs_of [x63]) TMP = None.
 Proof. vm_compute. repeat split; reflexivity. Qed.
+
+(* ---- the statements of the file ----
+   [tree] reads a content as its declarations and statements (None: not a program); the oracle
+   hypothesis [keeps formatted tree] says that whenever parser + formatter produce a text, the
+   text reads as the statements of the input.  Under it a run never leaves FILE with another
+   statement list - at no moment, whatever fails - and a run that reports success leaves the
+   formatted text, which has all of them. *)
+Definition keeps {T : Type} (formatted : bytes -> fmt_result) (tree : bytes -> option T) : Prop :=
+  forall c out, formatted c = FmtOk out -> tree c <> None /\ tree out = tree c.
+
+Theorem statements_never_lost {T : Type} (tree : bytes -> option T) (formatted : bytes -> fmt_result)
+  content faults k fs0 :
+  keeps formatted tree -> fs0 FILE = Some content ->
+  exists d, run_prefix k (inject faults (fmt_w (formatted content))) fs0 FILE = Some d /\ tree d = tree content.
+Proof.
+  intros Hk H0. destruct (write_atomic formatted content faults k fs0 H0) as [H | (out & Ho & H)].
+  - exists content. split; [exact H | reflexivity].
+  - exists out. split; [exact H | exact (proj2 (Hk content out Ho))].
+Qed.
+
+Theorem success_keeps_statements {T : Type} (tree : bytes -> option T) (formatted : bytes -> fmt_result)
+  content faults fs0 :
+  keeps formatted tree -> fs0 FILE = Some content -> exit_of faults (formatted content) = 0 ->
+  exists out, formatted content = FmtOk out /\
+    run_effs (inject faults (fmt_w (formatted content))) fs0 FILE = Some out /\
+    tree out = tree content /\ tree content <> None.
+Proof.
+  intros Hk H0 He. destruct (success_formats formatted content faults fs0 H0 He) as (out & Ho & H).
+  exists out. destruct (Hk content out Ho) as [A B]. repeat split; assumption.
+Qed.
+
+(* the hypothesis is what fails for a formatter that skips what it cannot print: FILE reads as
+   fewer statements after a successful run *)
+Theorem skipping_formatter_refuted :
+  exists (tree : bytes -> option nat) (formatted : bytes -> fmt_result) content faults fs0,
+    fs0 FILE = Some content /\ exit_of faults (formatted content) = 0 /\
+    exists d, run_effs (inject faults (fmt_w (formatted content))) fs0 FILE = Some d /\ tree d <> tree content.
+Proof.
+  exists (fun c => Some (length c)), (fun _ => FmtOk []), [x73; x3b], no_faults, (fs_of [x73; x3b]).
+  split; [reflexivity|]. split; [reflexivity|]. exists []. split; [vm_compute; reflexivity | discriminate].
+Qed.
